@@ -432,40 +432,60 @@ def run_interleaved(case):
     unbound = all([d.finish() for d in ds])
     return [d.obs for d in ds], shared, unbound
 
+THREAD_COPIES = 2      # threads per engine history (every thread has its own YP instances)
+THREAD_ROUNDS = 6      # times every thread runs its history, each time on a fresh instance
+
 def run_threads(case):
-    ds = [EngineDriver(case, e) for e in range(case['neng'])]
-    barrier = threading.Barrier(len(ds))
+    """every history on THREAD_COPIES threads at once, THREAD_ROUNDS times in a row on fresh instances, all threads started
+    together with a tiny switch interval.  Returns per engine the distinct observation sequences that occurred (canonical form; there must be exactly one, the one of the
+    run alone), the errors and the number of histories run."""
+    jobs = [(e, k) for e in range(case['neng']) for k in range(THREAD_COPIES)]
+    barrier = threading.Barrier(len(jobs))
     errs = []
-    def work(d):
+    seen = {j: [] for j in jobs}
+    def work(j):
         try:
             barrier.wait()
-            for op in case['hist'][d.eid]:
-                d.step(op)
+            for _ in range(THREAD_ROUNDS):
+                d = EngineDriver(case, j[0])
+                for op in case['hist'][j[0]]:
+                    d.step(op)
+                if not d.finish():
+                    errs.append('a variable stayed bound')
+                seen[j].append(d.obs)
         except BaseException as ex:       # pragma: no cover
             errs.append(repr(ex))
     old = sys.getswitchinterval()
     sys.setswitchinterval(1e-6)
     try:
-        ts = [threading.Thread(target=work, args=(d,)) for d in ds]
+        ts = [threading.Thread(target=work, args=(j,)) for j in jobs]
         for t in ts:
             t.start()
         for t in ts:
             t.join()
     finally:
         sys.setswitchinterval(old)
-    for d in ds:
-        d.finish()
-    return [d.obs for d in ds], errs
+    out = []
+    for e in range(case['neng']):
+        distinct = []
+        for j in jobs:
+            if j[0] == e:
+                for o in seen[j]:
+                    r = canon_impl([o])[0]
+                    if r not in distinct:
+                        distinct.append(r)
+        out.append(distinct)
+    return out, errs, sum(len(v) for v in seen.values())
 
 def impl(case):
     case = dict(case)
     _prepare(case)
     alone = run_alone_fresh(case)
     inter, shared, unbound = run_interleaved(case)
-    thr, errs = run_threads(case)
+    thr, errs, nthr = run_threads(case)
     b2b = run_back_to_back(case)
     solo = run_slots_alone(case)
-    return {'slots_alone': solo, 'alone': alone, 'back_to_back': b2b, 'interleaved': inter, 'threads': thr, 'thread_errors': errs,
+    return {'slots_alone': solo, 'alone': alone, 'back_to_back': b2b, 'interleaved': inter, 'threads': thr, 'thread_errors': errs, 'thread_runs': nthr,
             'shared_atom_objects': shared, 'all_unbound_at_end': unbound}
 
 # ------------------------------------------------------------------ comparison
@@ -551,7 +571,7 @@ def compare(case, io, mo):
 def oracle(case, io):
     if not isinstance(io, dict):
         return None
-    a, b, c = canon_impl(io['alone']), canon_impl(io['interleaved']), canon_impl(io['threads'])
+    a, b, c = canon_impl(io['alone']), canon_impl(io['interleaved']), io['threads']
     bb = canon_impl(io['back_to_back'])
     if any(o and o[0] == 'raised' and o[1] == 'RecursionError' for s in a for o in s):
         return None            # cyclic term: unspecified
@@ -561,8 +581,13 @@ def oracle(case, io):
         return 'an engine observes something else when the engines run back to back in one process than when it runs alone in a fresh interpreter: ' + _first_diff(bb, a)
     if io['thread_errors']:
         return 'thread run raised: %s' % io['thread_errors'][:2]
-    if a != c:
-        return 'an engine observes something else when the engines run on threads than when it runs alone in a fresh interpreter: ' + _first_diff(c, a)
+    for e, runs in enumerate(c):
+        for r in runs:
+            if r != a[e]:
+                return ('an engine observes something else when the engines run on threads than when it runs alone in a fresh '
+                        'interpreter: ' + _first_diff([r], [a[e]]).replace('engine 0', 'engine %d' % e, 1))
+        if not runs:
+            return 'thread run produced nothing for engine %d' % e
     for e, q, seen in io.get('slots_alone', []):
         for k, o in seen:
             x, y = canon_impl([[o]])[0][0], b[e][k]
@@ -842,25 +867,39 @@ def describe(case):
     return {'scripts': [pl_script(s) for s in case['scripts']],
             'schedule': ['engine %d: %s' % (e, sop(op)) for e, op in schedule_ops(case)]}
 
+def _without(case, e, drop):
+    """the case without the operations of engine e whose positions are in drop (their places in the schedule go too)"""
+    c = {k: v for k, v in case.items() if k != '_compiled'}
+    c['hist'] = [list(h) for h in case['hist']]
+    c['hist'][e] = [op for k, op in enumerate(case['hist'][e]) if k not in drop]
+    sched = []
+    seen = 0
+    for x in case['sched']:
+        if x == e:
+            seen += 1
+            if seen - 1 in drop:
+                continue
+        sched.append(x)
+    c['sched'] = sched
+    return c
+
 def shrink(case):
-    # drop one operation (and its place in the schedule), later operations first
+    # big pieces first: the whole history of one engine, halves and quarters of a history, then single operations
+    # (later operations first)
+    for e in range(case['neng']):
+        n = len(case['hist'][e])
+        if n > 1:
+            yield _without(case, e, set(range(n)))
+    for e in range(case['neng']):
+        n = len(case['hist'][e])
+        for parts in (2, 4, 8):
+            if n >= 2 * parts:
+                step = n // parts
+                for i in reversed(range(parts)):
+                    yield _without(case, e, set(range(i * step, n if i == parts - 1 else (i + 1) * step)))
     for e in range(case['neng']):
         for k in reversed(range(len(case['hist'][e]))):
-            c = dict(case)
-            c['hist'] = [list(h) for h in case['hist']]
-            del c['hist'][e][k]
-            sched = []
-            seen = 0
-            for x in case['sched']:
-                if x == e:
-                    if seen == k:
-                        seen += 1
-                        continue
-                    seen += 1
-                sched.append(x)
-            c['sched'] = sched
-            c.pop('_compiled', None)
-            yield c
+            yield _without(case, e, {k})
 
 def distribution(cases, obs):
     d = {'engines': {}, 'ops': {}, 'history_len': {}, 'max_suspended': {}, 'answers_per_next': {'ans': 0, 'done': 0},
